@@ -60,6 +60,39 @@ theorem scatter_getElem? {β : Type} (base : List β) (idx : List Nat) (vals : L
         exact ih (base.set a v) vals hnd'.2 (by simpa using hlen)
           (fun r hr => by simpa using hb r (List.mem_cons_of_mem _ hr)) q (by simpa using hq)
 
+theorem set_eq_self_of_getElem? {β : Type} (s : List β) (r : Nat) (x : β) (h : s[r]? = some x) :
+    s.set r x = s := by
+  apply List.ext_getElem?
+  intro k
+  by_cases hk : r = k
+  · subst hk
+    have hlt : r < s.length := by
+      by_contra hge
+      rw [List.getElem?_eq_none (by omega)] at h
+      cases h
+    simp [List.getElem?_set, hlt]
+    rw [List.getElem?_eq_getElem hlt] at h
+    exact (Option.some.inj h).symm
+  · simp [List.getElem?_set, hk]
+
+/-- writing what is already there changes nothing -/
+theorem scatter_same {β : Type} (s : List β) (idx : List Nat) (vals : List β)
+    (h : ∀ q (hq : q < idx.length) (hv : q < vals.length), s[idx[q]]? = some vals[q]) :
+    scatter s idx vals = s := by
+  induction idx generalizing vals with
+  | nil => cases vals <;> rfl
+  | cons r idx ih =>
+    cases vals with
+    | nil => rfl
+    | cons v vals =>
+      simp only [scatter]
+      have h0 := h 0 (by simp) (by simp)
+      simp only [List.getElem_cons_zero] at h0
+      rw [set_eq_self_of_getElem? s r v h0]
+      exact ih vals fun q hq hv => by
+        have := h (q + 1) (by simpa using hq) (by simpa using hv)
+        simpa using this
+
 /-! ### gather / positionsFrom -/
 
 theorem gather_nil {β : Type} (x : List β) : gather x [] = some [] := rfl
